@@ -148,6 +148,9 @@ let dispatch cmd args =
       let (et, nroot) = parse_ety t in
       let f = (if cmd = "duper" then dfl_uper else dfl_uper_count_only) in
       Some (hex_opt (f (std = "1") (dfl_of dr) (dfl_of da) et (eval_of nroot v)))
+  | ("gtcanon" | "utcanon" | "gtcanonfast"), [h; lg] ->
+      let f = (match cmd with "gtcanon" -> gt_canon | "utcanon" -> ut_canon | _ -> gt_canon_fast) in
+      Some (match f (bytes_of_hex h) (cz_of_string lg) with Some bs -> hex_of_bytes bs | None -> "FAIL")
   | ("fragwhole" | "frageach"), [k; ms] ->
       let f = (if cmd = "fragwhole" then frag_whole else frag_each) in
       Some (show_bits (f (cz_of_string k) (members_of ms)))
